@@ -62,6 +62,7 @@ type EQOpts struct {
 	MaxError   s1.ChordAngle
 	Interiors  bool
 	BruteForce bool
+	NilOpts    bool // pass nil options to the constructor (the documented way to get the defaults)
 }
 
 func (o EQOpts) String() string {
@@ -84,6 +85,9 @@ func (o EQOpts) String() string {
 	}
 	if o.BruteForce {
 		s += ",brute"
+	}
+	if o.NilOpts {
+		s += ",nil-options"
 	}
 	return s
 }
@@ -116,6 +120,13 @@ func (o EQOpts) newQuery(ix *s2.ShapeIndex) *s2.EdgeQuery {
 
 // newQueryWithOptions also returns the options object the caller keeps (the query shares it).
 func (o EQOpts) newQueryWithOptions(ix *s2.ShapeIndex) (*s2.EdgeQuery, *s2.EdgeQueryOptions) {
+	if o.NilOpts {
+		// "If you pass a nil as the options you get the default values for the options."
+		if o.Furthest {
+			return s2.NewFurthestEdgeQuery(ix, nil), nil
+		}
+		return s2.NewClosestEdgeQuery(ix, nil), nil
+	}
 	eo := o.build()
 	if o.Furthest {
 		return s2.NewFurthestEdgeQuery(ix, eo), eo
@@ -679,6 +690,10 @@ func drawEQOpts(g *gen.G) EQOpts {
 		o.Limit = s1.ChordAngleFromAngle(s1.Angle((0.01 + 60*t.Float()) * math.Pi / 180))
 	}
 	o.BruteForce = t.Chance(200)
+	if t.Chance(120) {
+		// all defaults, requested by passing nil
+		o = EQOpts{Furthest: o.Furthest, Interiors: true, NilOpts: true}
+	}
 	return o
 }
 
